@@ -22,14 +22,19 @@ for s in seeds:
     try:
         for p in todo:
             t = time.time()
-            out = subprocess.run([os.path.join(ROOT, "check"), p, "--tier", "quick"], capture_output=True, text=True, cwd=ROOT)
+            try:
+                out = subprocess.run([os.path.join(ROOT, "check"), p, "--tier", "quick"], capture_output=True, text=True, cwd=ROOT, timeout=1500)
+            except subprocess.TimeoutExpired:
+                print("%s %s: TIMEOUT of the check itself" % (s, p), flush=True)
+                subprocess.run("ps aux | grep -E '[t]xtpp-harness' | awk '{print $2}' | xargs -r kill", shell=True)
+                continue
             viol = [l for l in out.stdout.splitlines() if l.startswith("VIOLATION")]
             det = out.returncode != 0 and bool(viol)
             kind = "none"
             if det:
                 kind = "no-failing-input-found" if all("no-failing-input-found" in v for v in viol) else "failing-input"
             notes = [l for l in out.stdout.splitlines() if l.startswith("note:")][:1]
-            print("%s %s: %s (%s) %.0fs %s" % (s, p, "DETECTED" if det else "missed", kind, time.time() - t, notes[0][:160] if notes else ""), flush=True)
+            print("%s %s: %s (%s) %.0fs %s" % (s, p, "DETECTED" if det else "missed", kind, time.time() - t, notes[0][:200] if notes else ""), flush=True)
             db = [x for x in meta.get("detected_by", []) if x["check"] != p]
             db.append({"check": p, "tier": "quick", "detected": det, "kind": kind})
             meta["detected_by"] = db
